@@ -23,6 +23,7 @@ LNext ==
      \/ GetOutput(e)
      \/ Finalize(e)
      \/ Drop(e)
+     \/ CallerEdits(e)
      \/ Undefined(e)
 
 LSpec == Init /\ [][LNext]_vars
